@@ -242,8 +242,25 @@ def iter3(eng, out):
             acc = ("param", 2)
             cl = cc.run(ev.args[2], params={2: acc, 3: ("param", 3)})
             if cl is not None:
+                rets = []
                 for r in cl["returns"]:
-                    fams = acc_families(r, acc)
+                    if r[0] == "agg" and r[1] in ("adt", "tuple"):
+                        # a struct / tuple of accumulators: each field may depend on its own previous value only
+                        for fn_, e in r[5]:
+                            own = ("accfield", fn_)
+                            from expr import children
+                            def subst(z):
+                                if isinstance(z, tuple) and z and z[0] == "field" and z[1] == acc and z[2] == fn_:
+                                    return own
+                                if isinstance(z, tuple):
+                                    return tuple(subst(c) if isinstance(c, tuple) else c for c in z)
+                                return z
+                            e2 = subst(e)
+                            rets.append((e2, own) if not mentions(e2, lambda y: y == acc) else (("unk", "cross-field"), own))
+                    else:
+                        rets.append((r, acc))
+                for r, a_ in rets:
+                    fams = acc_families(r, a_) if r != ("unk", "cross-field") else frozenset({"other:another field of the accumulator"})
                     if fams is None:
                         continue      # this path does not carry the accumulator on (a constant result)
                     if fams == "multi" or not families_commute(fams):
